@@ -685,6 +685,20 @@ for _name, _l, _r in (("strip", True, True), ("lstrip", True, False), ("rstrip",
         return f
     setattr(SymBytes, _name, _mk(_name, _l, _r))
 
+def _join(self, parts):
+    """sep.join(parts) for byte strings, symbolic parts allowed"""
+    out = type(self)([])
+    first = True
+    for part in parts:
+        if not first:
+            out = out + self
+        out = out + as_rope(part)
+        first = False
+    return out
+
+
+SymBytes.join = _join
+
 for _name in ("split", "title", "lower", "upper", "partition", "rpartition", "replace",
               "splitlines", "isdigit", "count"):
     def _mk(name):
